@@ -211,6 +211,17 @@ int main() {
             }
             else if (t[0] == "X" && t[1] == "counts") OUT("c %zu %zu", g_x->get_block_item_count(), g_x->get_blocks_written_count());
             else if (t[0] == "X" && t[1] == "end") { g_x.reset(); OUT("ok"); }
+            else if (t[0] == "PREAMBLE") {      // the serialised default FilePreamble with the given max_block_items (what 'X new' uses)
+                FilePreamble fp; fp.m_block_parameters[0].storage_parameters.max_block_items = strtoull(t[1].c_str(), nullptr, 10);
+                g_in_hook = true;
+                std::string path = g_dir + "/.preamble";
+                { int fd = ::open(path.c_str(), O_CREAT | O_TRUNC | O_WRONLY, 0600); CdnsEncoder e(fd, CborOutputCompression::NO_COMPRESSION); fp.write(e); }
+                std::string all; { FILE* f = ::fopen(path.c_str(), "rb"); char b[4096]; size_t n; while (f && (n = fread(b, 1, sizeof b, f)) > 0) all.append(b, n); if (f) ::fclose(f); }
+                ::unlink(path.c_str());
+                g_in_hook = false;
+                static const char* hx = "0123456789abcdef"; std::string h; for (unsigned char c : all) { h += hx[c >> 4]; h += hx[c & 15]; }
+                OUT("pre %s", h.c_str());
+            }
             else if (t[0] == "TRACE") { for (auto& e : g_trace) OUT("ev %s", e.c_str()); OUT("endtrace"); }
             else OUT("? unknown command");
         }
